@@ -32,6 +32,9 @@ BODIES = [
     "<OFX>" + SON.replace("<SEVERITY>INFO</SEVERITY>", "") + "</OFX>",              # required child missing
     "<OFX>" + SON.replace("20200101", "2020-01-01T00:00") + "</OFX>",               # not an OFX date
     "<OFX><NOSUCHMSGSRSV1><X>1</X></NOSUCHMSGSRSV1></OFX>",
+    # well-formed and valid, but carrying <OFXEXTENSION> in the sign-on (where the models list it as unsupported) - the same tag
+    # is a real child of every transaction wrapper
+    "<OFX>" + SON.replace("</SONRS>", "<OFXEXTENSION><OFXEXTPROPERTIES><X>1</X></OFXEXTPROPERTIES></OFXEXTENSION></SONRS>") + "</OFX>",
     "",
     "text only, no tags",
     "<OFX>" + SON.replace("ENG", "caf\u00e9") + "</OFX>",                              # non-ASCII under whatever the header claims
